@@ -57,7 +57,7 @@ Lemma seg_div : J 0%nat 0%nat + J 1%nat 1%nat + J 2%nat 2%nat = 0.
 Proof.
   pose proof PI_RGT_0 as Hpi.
   unfold J, seg_J, seg_D, a, e, Rcross, Rvsub, Rdot, comp, upd in *.
-  Time (field; repeat split; try assumption; try lra).
+  field; repeat split; try assumption; try lra.
 Qed.
 
 (* curl = K(a - e) - K(a), K(v) = cur/(4 pi) v / |v|^3 *)
@@ -68,7 +68,7 @@ Lemma seg_curl :
 Proof.
   pose proof PI_RGT_0 as Hpi.
   unfold J, seg_J, seg_D, a, e, Rcross, Rvsub, Rdot, comp, upd in *.
-  Time (repeat split; field; repeat split; try assumption; try lra).
+  repeat split; field; repeat split; try assumption; try lra.
 Qed.
 End Laws.
 
@@ -682,3 +682,26 @@ Proof.
   - intros E; inversion E; lra.
   - eapply Rlt_le_trans; [|apply Hs]; lra.
 Qed.
+
+(* ------------------------------------------------------------------ statements used by Props/C14.v *)
+Lemma polyline_is_seg_H o p1 p2 cur :
+  p1 <> p2 ->
+  1 / 1000000000000000 * Rdot (Rvsub p2 p1) (Rvsub p2 p1) <= sqrt (seg_D (Rvsub o p1) (Rvsub p2 p1)) ->
+  polyline_H NumR o p1 p2 cur = seg_H cur p1 p2 o.
+Proof. exact (polyline_is_seg o p1 p2 cur). Qed.
+
+Lemma polyline_chain_laws cur vs o d : poly_clear o vs ->
+  differentiable_at (poly_sum cur vs) o
+  /\ divergence (poly_sum cur vs) o = 0
+  /\ curl (poly_sum cur vs) o
+     = Rvsub (pointK cur (Rvsub o (last vs d))) (pointK cur (Rvsub o (hd d vs))).
+Proof.
+  intros Hcl. destruct (poly_sum_jacobian cur o d vs Hcl) as (J & HJ & Hd & Hc).
+  destruct (jacobian_div_curl _ _ _ HJ) as (H1 & H2 & H3).
+  split; [exact H1|]. split; [rewrite H2; exact Hd|rewrite H3; exact Hc].
+Qed.
+
+Lemma polyline_nonvacuous :
+  let vs := [(0, 0, 0); (1, 0, 0); (0, 1, 0); (0, 0, 0)] in
+  poly_clear (0, 0, 1) vs /\ hd (0, 0, 0) vs = last vs (0, 0, 0).
+Proof. split; [exact poly_clear_nonvacuous|reflexivity]. Qed.
